@@ -103,7 +103,11 @@ func emitCross(va, vb *schema.Set) string {
 
 func TestC16_GeneratedVersions(t *testing.T) {
 	ev.Rule(c16, "generated-code layer: a single-package schema A from the semantic generator and a version B derived by a drawn edit sequence on its messages {add field with a fresh tag, remove, rename, reorder declarations} are both compiled by the real generator into packages va and vb of one module; an emitted driver writes random A values with va's writer and reads them with vb's reader: common fields equal (recursively projected), unknown fields ignored, B-only fields absent and reading as zero; then merges the A message through a vb writer that pre-wrote some B fields and reads the result under A: pre-written fields win, every other A field including those unknown to B is preserved; non-trivial = edit sequence has >=1 add and >=1 remove")
-	ev.CheckScaled(t, c16, 1, 800, func(rt *rapid.T) {
+	den := int64(800) // quick: 5000/800 = 6 schema pairs per shard
+	if ev.Thorough() {
+		den = 3000 // thorough: 60000/3000 = 20 per shard x 16 shards (each pair costs two compiler runs, a go build and a link)
+	}
+	ev.CheckScaled(t, c16, 1, den, func(rt *rapid.T) {
 		s := gen.RapidSrc{T: rt}
 		base, _ := schema.GenSetN(s, "vmod", 1)
 		va, vb, edits, counts := schema.Evolve(s, base, "va", "vb")
